@@ -26,7 +26,7 @@ def _c07_after(prop, tier, rc, gdt=False):
     scratch = os.path.join(os.environ.get("VERIF_SCRATCH", "/var/tmp"), f"x86_64-verif.M.{os.getpid()}")
     t0 = time.time()
     try:
-        subprocess.check_call(["rsync", "-a", "--exclude", "/target", "--exclude", "/.git", "--exclude", "/testing", "/repo/", scratch + "/"])
+        subprocess.check_call(["rsync", "-a", "--exclude", "/target", "--exclude", "/.git", "--exclude", "/testing", os.environ.get("VERIF_REPO", "/repo") + "/", scratch + "/"])
         out = os.path.join(scratch, "m.json")
         p = subprocess.run(["python3-vt", os.path.join(verif, "tools", "mir2smt.py"), scratch, out] + (["--gdt"] if gdt else []), capture_output=True, text=True, timeout=3000)
         if p.returncode != 0 or not os.path.exists(out):
@@ -126,8 +126,8 @@ PROPS = {
     "C01": PT("C01", "c01", bounds="one mapper call (map_to_with_table_flags / unmap / update_flags / translate, translate_addr, translate_page; 3 page sizes) from every pre-state of 179 (quick) / about 690 (thorough) concrete-skeleton instances x all symbolic contents, for MappedPageTable (122/484 instances) and RecursivePageTable (57/202); pool of 8 table frames; histories only by induction on WF over the instance family (no multi-call sequences, not for all addresses); clean_up preservation via one C10 instance"),
     "C02": PT("C02", "c02", bounds="as C01; every allocator failure position (0..3) is its own instance"),
     "C10": dict(K("c10", **_PT), own_labels_only=True, jobs=4, mem_gb=24, harness_timeout=2400, harness_timeout_thorough=5400, total_timeout=5000,
-                bounds="MappedPageTable only; 4 (quick) / 15 (thorough) concrete skeleton x range instances (<= 2 populated entries per table, <= 7 tables), symbolic leaf contents decide which tables are empty; loops fully unrolled (unwind 514)",
-                assumptions=["regime R2- as C01 (concrete skeleton, symbolic level-1 leaves)", "RecursivePageTable::clean_up is not driven (recursive slot exclusion undecided)"]),
+                bounds="MappedPageTable: 4 (quick) / 15 (thorough), RecursivePageTable: 1 / 4 concrete skeleton x range instances (<= 2 populated entries per table, <= 7 tables), symbolic leaf contents decide which tables are empty; loops fully unrolled (unwind 514)",
+                assumptions=["regime R2- as C01 (concrete skeleton, symbolic level-1 leaves)", "RecursivePageTable::clean_up through the S-ptr stub (software MMU), `_nr`; the recursive slot must stay untouched and nothing reached through it may be freed"]),
     "C09": PT("C09", "c09", bounds="as C01; frame rule on 24 witness slots per instance (every written slot, neighbours, slots 0/511 of free frames)"),
     "C04": K("c04", bounds="no loop; all canonical addresses, all index tuples in 0..512^4, all u16"),
     "C05": K("c05", bounds="no loop; all canonical addresses/pages, all usize counts"),
